@@ -4,9 +4,12 @@ import json
 
 TECH = 'bounded symbolic execution of the real code (CrossHair 0.0.110 + z3 5.1), solver verdict per path, concrete replay'
 
-_FE_NOTE = ('Partial claim: lexing/parsing of malformed TEXT (token-level edits, truncation, stray characters) is outside -- the '
-            'ply master regex on symbolic text is out of reach of the engine; reference resolution, inheritance legality, '
-            'patches, file order are structural and exercised only by the fixed templates. Trusted: the language-rule '
+_FE_NOTE = ('Partial claim: a symbolic spec TEXT is out of reach of the engine (the ply master regex realises it); syntax and '
+            'structure (reference resolution, inheritance legality, subtypes, patches, annotations, name clashes) are '
+            'therefore covered by FINITE tables whose index the solver enumerates (a rule x site table of ~150 specs, '
+            'finite-domain name / nullability / union-chain / patch-target slots, single-position text edits of the '
+            'catalogue files) -- stated as enumeration, not as a proof over all specs; file order and multi-file '
+            'layouts are outside. Trusted: the language-rule '
             'oracles transcribed from docs/lang_ref.rst in harness/fe_*.py (three-valued; silent cases not judged), '
             'CrossHair/z3, glue G1-G3. Every counterexample is re-rendered as spec TEXT and must end the same way '
             'through specs_to_ir before it is reported.')
@@ -19,22 +22,31 @@ CLAIMED = {
              'references), example values (scalars, floats, lists, maps, example references), route attribute values '
              'against a typed stone_cfg.Route schema, doc references composed from a finite name domain, finite-domain name '
              'clashes at inheritance depth 3: InvalidSpec is raised iff the transcribed language rule says must-reject. Plus '
-             'the indentation rule on the lexer dent kernel (symbolic indentation).',
+             'the indentation rule on the lexer dent kernel (symbolic indentation), alias chains x nullability, union '
+             'inheritance chains, patch targets, and a rule x site table (references, inheritance, subtypes, nullability / '
+             'defaults, routes, annotations, examples, redefinitions, patches) decided by the real parser + IRGenerator; a '
+             'catalogue of valid specs that no longer compiles is reported as a violation as well.',
         note=_FE_NOTE, ref='4 (C01/C02/C03)'),
     'C02': dict(
         text='Bounded proof by symbolic execution, literal-fidelity and ordering clauses: for every accepted symbolic literal '
              '(type arguments, defaults incl. int->float, example leaves, route attributes with schema defaults for absent '
              'ones, also on an untouched sibling route) the Api object carries exactly the declared value; Struct.all_fields '
              'is required-then-optional / parents-first for every optionality assignment of a depth-3 chain; '
-             'ApiNamespace.normalize leaves types, aliases and routes sorted and complete for symbolic names/versions.',
+             'ApiNamespace.normalize leaves types, aliases and routes sorted and complete for symbolic names/versions; the '
+             'implicit catch-all of every open/closed union chain, nullability through alias chains, annotations and '
+             'deprecation markers at every site of a template (IR vs AST), and closure / acyclicity / ordering invariants '
+             'of every accepted spec of the rule table.',
         note=_FE_NOTE + ' Closure/registration of reachable types and linearisation order are structural and outside.',
         ref='4 (C01/C02/C03)'),
     'C03': dict(
         text='Bounded proof by symbolic execution: for every value of every literal slot listed under C01, every composed doc '
              'reference, every finite-domain name choice, the semantic stage returns an Api or raises InvalidSpec -- no '
              'other exception escapes; the regex-free actions that see user text (string-literal action, doc_unwrap, route '
-             'reference parser) never raise on strings <= 4/5 chars; bug-hunting harnesses (realised doc-reference text) can '
-             'refute but not discharge. 11 defects of this kind were found this way and repaired (known_findings.json).',
+             'reference parser, parenthesis state actions) never raise on strings <= 4/5 chars; every single-position text '
+             'edit (truncate at every character, delete / duplicate / swap / re-indent every line) of the catalogue spec '
+             'files and every spec of the rule table ends in an Api or InvalidSpec with a message and an input path '
+             '(finite enumeration through specs_to_ir); bug-hunting harnesses (realised doc-reference text) can refute but '
+             'not discharge. 20 defects of this kind were found and repaired (known_findings.json).',
         note=_FE_NOTE + ' Message text is checked in concrete replays only (G1).', ref='4 (C01/C02/C03)'),
     'C04': dict(
         text='Bounded proof by symbolic execution: for every type of the shape catalogue, json_compat_obj_encode -> '
@@ -91,8 +103,10 @@ CLAIMED = {
              'shape (bounded ints, alias chains, floats IEEE-exact, booleans, strings with lengths and patterns) is accepted '
              'by the validator that python_types.generate_validator_constructor builds for the same type; (2) every example '
              'that the compiler computes for the holes template with one symbolic example value decodes strictly as the '
-             'generated class and encodes back to the same document (implicit catch-all example excluded); (3) bug-hunting '
-             'only: defaults are emitted as one line that evaluates back to the literal.',
+             'generated class and encodes back to the same document (implicit catch-all example excluded; union examples '
+             'with falsy payloads, a subtype declared before its base); (3) every defaulted field of the catalogue classes '
+             'reads back exactly the declared default, kind included (finite); (4) bug-hunting only: defaults are emitted as '
+             'one line that evaluates back to the literal.',
         note='Trusted: CrossHair/z3 + regex engine, glue G1-G3; generated classes of catalogue/holes compiled at check time. '
              'Outside: tag defaults read back from generated classes (concrete fixture gate only), Bytes/Timestamp, '
              'emission of arbitrary numbers (formatting realises them).',
@@ -121,10 +135,13 @@ CLAIMED = {
         ref='4 (C13)'),
     'C14': dict(
         text='Bounded proof by symbolic execution of the generated python_client methods (regenerated at check time) for '
-             'the 11 catalogue routes: symbolic argument values, every optional parameter passed or omitted, required '
+             'the 16 catalogue routes (two specs): symbolic argument values, every optional parameter passed or omitted, required '
              'parameters positional or by keyword, symbolic request() result: exactly one request with the ROUTES object, '
-             'namespace, upload body, an argument whose every field equals the passed value or the spec default '
-             '(tag defaults incl. cross-namespace), result returned (None for Void), DeprecationWarning iff deprecated.',
+             'namespace, upload body, an argument whose every field equals the passed value or the spec default in value '
+             'AND kind (tag defaults incl. cross-namespace; equal-valued defaults of different literal kinds), result '
+             'returned (None for Void), DeprecationWarning iff deprecated; second spec with a reserved-word namespace and '
+             'only later versions deprecated; a client module that does not import next to its types is a violation. One '
+             'known finding (alias-of-nullable argument field) is listed in known_findings.json.',
         note='Partial: method naming/docstrings, the _to_file helper and routes outside the catalogue are outside. '
              'Trusted: CrossHair/z3, glue G1-G3; validity of argument values is not the subject (invalid ones are skipped).',
         ref='4 (C14)'),
@@ -134,9 +151,10 @@ CLAIMED = {
              'by recording stubs: a path that an independent segment-stack resolver places outside the root is refused by '
              'AssertionError before any makedirs/open/copy, accepted writes land inside, manifest mode touches nothing '
              'and records the normalised relative path. Verbatim emission: emit/emit_raw/indent/block/placeholders with '
-             'symbolic text over { } % a space reach output_buffer_to_string byte for byte with the right indentation.',
-        note='Partial claim: manifest-vs-real-run fidelity for the built-in backends, emit_wrapped_text and '
-             'generate_multiline_list are outside. Trusted: glue G4 (CPython pure-Python normpath, cross-checked against '
+             'symbolic text over { } % a space reach output_buffer_to_string byte for byte with the right indentation; '
+             'generate_multiline_list with symbolic (possibly equal) items equals a reference pretty-printer; the same '
+             'output requested twice in a manifest run is never written.',
+        note='Partial claim: manifest-vs-real-run fidelity for the built-in backends and emit_wrapped_text are outside. Trusted: glue G4 (CPython pure-Python normpath, cross-checked against '
              'the C function in the self-test), G5 (pure-Python twin of str.format for symbolic templates), stubs for '
              'os/open/shutil; cwd fixed to /cwd, root fixed to /out/root.',
         ref='4 (C18)'),
